@@ -1,18 +1,24 @@
 PROP_ID = "C07"
 PROP = {
     "level": "exploration",
-    "assumptions": ["crypto/ed25519 and the pluggable SimpleSignatureScheme/SimpleHashScheme are trusted", "single mirror on memory stores; restarts are clean (crash points belong to C10)"],
+    "assumptions": ["crypto/ed25519 and the pluggable SimpleSignatureScheme/SimpleHashScheme are trusted", "single mirror on memory stores; restarts are clean (crash points belong to C10)", "state-machine unit: validator changes are a pure function of the height (the harness driver and the harness network agree by construction)"],
     "units": [{
         "bin": "mirrorsim", "pkg": "tm/tmengine/internal/tmmirror", "inject": [("mirrorsim", "tm/tmengine/internal/tmmirror")],
         "tests": [
             {"name": "TestVerifC07ValidatorSets", "quick": 1200, "thorough": 160000, "shards": {"thorough": 16}},
+        ],
+    }, {
+        # state-machine half: the sets the machine proposes / filters / participates with are what the harness driver returned (harness/smsim)
+        "bin": "smsim", "pkg": "tm/tmengine/internal/tmstate", "inject": [("smsim", "tm/tmengine/internal/tmstate")],
+        "tests": [
+            {"name": "TestVerifC07SMValidatorSets", "quick": 4000, "thorough": 320000, "shards": {"quick": 4, "thorough": 16}, "env": {"GOMAXPROCS": "2"}},
         ],
     }],
 }
 CLAIM = {
     "engine": "mirrorsim",
     "technique": "stateful property-based testing (rapid op lists in testing/synctest bubbles) with an invariant oracle evaluated after every step",
-    "text": "Generated adversarial histories (the harness owns all validator keys) are run against one real tmmirror.Mirror; after every step the validator sets in the voting and committing views and in every committed header are compared (keys, powers, hashes) with the set the chain prescribes according to the harness's own registry, and list contents are re-hashed with an independent BLAKE2b implementation.",
+    "text": "Generated adversarial histories (the harness owns all validator keys) are run against one real tmmirror.Mirror; after every step the validator sets in the voting and committing views and in every committed header are compared (keys, powers, hashes) with the set the chain prescribes according to the harness's own registry, and list contents are re-hashed with an independent BLAKE2b implementation. State-machine unit (smsim): one real StateMachine on chains whose driver changes validator keys and powers at every height, with quiescent restarts and a crash point inside a store write; at every EnterRound / ConsiderProposedBlocks / ChooseProposedBlock call and for every proposed header the machine builds, ValidatorSet and NextValidatorSet (keys, powers, hashes) equal what the harness driver returned when finalizing h-2 and h-1, Consider/Choose receive exactly the acceptable proposals of the latest view (none withheld, none with other sets), and the presence of the Actions channel equals membership of the machine key in the set of that height, also right after a restart.",
     "design_ref": "DESIGN.md section 4 C07, section 3.1",
     "note": "Exploration only; known crash findings (C09-*) are excluded by construction.",
 }
